@@ -579,9 +579,12 @@ pub fn family_registry(rng: &mut Rng) -> Registry {
             base.push((q, s));
         }
         let nv = if p == 0 { 1 } else { 2 + rng.below(2) as u32 };
+        // some packages have versions that all depend on their own package (pinning themselves, or "at least me")
+        let self_dep = if p > 0 && rng.chance(1, 6) { 1 + rng.below(2) } else { 0 };
         for v in 0..nv {
             if p > 0 && rng.chance(1, 30) { reg.pkgs.entry(p).or_default().insert(v, None); continue; }
             let mut ds: Vec<(u32, R)> = vec![];
+            if self_dep == 1 { ds.push((p, R::singleton(v))); } else if self_dep == 2 { ds.push((p, R::higher_than(v))); }
             for (q, s) in &base {
                 if rng.chance(1, 7) { continue; }
                 ds.push((*q, if rng.chance(1, 4) { set(rng) } else { s.clone() }));
@@ -616,6 +619,10 @@ pub fn corpus() -> Vec<(Registry, (u32, u32))> {
         // an unavailable version of a package required only by a version that is backtracked away
         (reg(&[(0, 1, Some(vec![(1, R::full())])), (1, 2, Some(vec![(2, R::full()), (3, R::full())])), (1, 1, Some(vec![])),
                (2, 1, Some(vec![])), (2, 2, None), (3, 1, Some(vec![(4, R::empty())])), (3, 2, Some(vec![(4, R::empty())])), (3, 3, Some(vec![(4, R::empty())]))]), (0, 1)),
+        // two versions that each pin their own package, both fetched in one run (conflict, backtrack), the first needed again
+        (reg(&[(0, 1, Some(vec![(1, R::full()), (2, R::full())])), (1, 1, Some(vec![])), (1, 2, Some(vec![])),
+               (2, 2, Some(vec![(2, R::singleton(2u32)), (1, R::singleton(1u32))])),
+               (2, 1, Some(vec![(2, R::singleton(1u32)), (3, R::empty())]))]), (0, 1)),
         // a self-dependency decided first, then a conflict elsewhere and a re-decision outside the self-dependency's set
         (reg(&[(0, 1, Some(vec![(1, R::full())])), (1, 2, Some(vec![(1, R::higher_than(2u32)), (2, R::singleton(5u32))])), (1, 1, Some(vec![])), (2, 1, Some(vec![]))]), (0, 1)),
     ]
@@ -658,6 +665,15 @@ pub fn generate(out: &mut Out, rng: &mut Rng, thorough: bool, which: &str) {
         for (reg, root) in corpus() {
             let np = reg.pkgs.keys().max().copied().unwrap_or(0) as usize + 2;
             for (choose, prio) in strategies(np, rng, true) { run_and_emit(out, &reg, root, &choose, &prio, &[], false); }
+            // every static priority order of the packages (the corpus is small)
+            if np <= 7 {
+                for pm in all_perms(np - 1) {
+                    let mut pm = pm.clone(); pm.resize(np + 1, -1);
+                    for choose in [ChooseMode::Newest, ChooseMode::Oldest] {
+                        run_and_emit(out, &reg, root, &choose, &PrioMode::Static(pm.clone()), &[], false);
+                    }
+                }
+            }
         }
         let ndeep = if thorough { 16000 / div } else { 2500 };
         for i in 0..ndeep {
